@@ -41,6 +41,13 @@ CHECKS = {
         note="Trusted: bit-mask model of std::set<symbol_t> (8 symbols), flat type abstraction, stub TypeChecker environment (checkExpression / isCompileTimeComputable by ghost), induction meta-step. NOT under contract: TypeChecker::visitFunction's computation of function_t::changes and the statement visitors behind it (virtual dispatch), and that every context of the statement reaches a gate (traversal). Array sizes and range bounds have no side-effect gate of their own; they are protected only through the compile-time-computability check (C13).",
         technique="one-level induction steps with ghost set summaries + per-gate slices of the real if-chains, assume/call/assert harnesses in CBMC; native replay through parse_XTA",
     ),
+    "C12": dict(
+        category="proof",
+        text="(1) Type-tree lemmas on the REAL class type_t (type.h) and the REAL members of type.cpp over a raw node pointer, one level each with ghost child summaries: TYPE-IS (is(K) = kind or looked-through prefix/RANGE/REF/LABEL, = the flat abstraction used by the clause proofs), is_prefix, is_mutable, is_constant, is(CONSTANT) => !is_mutable, constness survives get_sub()/get_sub(i) (prefix re-applied, REF/LABEL transparent), and the three binder sites (forall/exists/sum, iteration, select) force a constant, immutable type. (2) The REAL isModifiableLValue (one level): never true for an expression denoting / indexing / selecting into a constant (ghost dc), true for the mutable twins; the REAL write clauses (=, ten op=, four ++/--): dc(target) => error, mutable integer twin accepted; the REAL isParameterCompatible / checkParameterCompatible / FUN_CALL clause / visitInstance argument rule: a constant object is rejected for a non-const reference parameter of a function or template.",
+        design_ref="DESIGN.md section 4, C12 and 4.0 item 1",
+        note="Trusted: std::vector<child_t> as capacity-3 array, shared_ptr as raw pointer, make_shared as new; induction over tree height; flat type abstraction + stub TypeChecker environment for the clause-level jobs (areAssignmentCompatible / areEquivalent arbitrary). Type arity <= 3.",
+        technique="one-level induction steps on sliced real code (type.cpp members, typechecker.cpp clauses) with ghost summaries, assume/call/assert harnesses in CBMC; native replay through parse_XTA",
+    ),
 }
 
 NOT_APPLICABLE = {
